@@ -27,6 +27,7 @@ inductive Res (α : Type) where
   deriving Repr, DecidableEq
 
 def CR : UInt8 := 0x0d
+def colon : UInt8 := 0x3a
 def LF : UInt8 := 0x0a
 
 def isAlpha (b : UInt8) : Bool := (65 ≤ b.toNat && b.toNat ≤ 90) || (97 ≤ b.toNat && b.toNat ≤ 122)
@@ -106,6 +107,42 @@ def hostHeader (tcp : Bool) (dc ds : Bytes) : Res (Option Bytes) :=
   else if expected dc then scan dc
   else .ok none
 
+/-! ## the specification side of the Host header: RFC 9112 §2.1/§5 field syntax, RFC 9110 §5.6.3 OWS, §7.2 Host -/
+
+/-- `tchar` of RFC 9110 §5.6.2 -/
+def isTchar (b : UInt8) : Bool :=
+  isAlpha b || isDigit b ||
+    [0x21, 0x23, 0x24, 0x25, 0x26, 0x27, 0x2a, 0x2b, 0x2d, 0x2e, 0x5e, 0x5f, 0x60, 0x7c, 0x7e].contains b
+
+/-- one field line `field-name ":" OWS field-value OWS` -/
+structure Field where
+  name : Bytes
+  ows1 : Bytes
+  value : Bytes
+  ows2 : Bytes
+  deriving Repr, DecidableEq
+
+def Field.body (f : Field) : Bytes := f.name ++ colon :: (f.ows1 ++ f.value ++ f.ows2)
+def Field.render (f : Field) : Bytes := f.body ++ [CR, LF]
+
+/-- token name; OWS is SP/HTAB only; the value has no CR/LF and neither starts nor ends with OWS (it may be empty) -/
+def Field.WF (f : Field) : Prop :=
+  f.name ≠ [] ∧ (∀ b ∈ f.name, isTchar b = true) ∧ (∀ b ∈ f.ows1, isOWS b = true) ∧ (∀ b ∈ f.ows2, isOWS b = true) ∧
+  (∀ b ∈ f.value, b ≠ CR ∧ b ≠ LF) ∧ (∀ b, f.value.head? = some b → isOWS b = false) ∧
+  (∀ b, f.value.getLast? = some b → isOWS b = false)
+
+/-- field names are case-insensitive -/
+def isHostName (n : Bytes) : Bool := startsCI [0x68, 0x6f, 0x73, 0x74] n && n.length == 4
+
+/-- the Host header "as HTTP defines it": the first Host field; an empty value names no host -/
+def specHost : List Field → Option Bytes
+  | [] => none
+  | f :: fs => if isHostName f.name then (if f.value.isEmpty then none else some f.value) else specHost fs
+
+/-- `request-line CRLF *( field-line CRLF ) CRLF` -/
+def renderHead (reqLine : Bytes) (fs : List Field) : Bytes :=
+  reqLine ++ CR :: LF :: (fs.flatMap Field.render ++ [CR, LF])
+
 /-! ## `_starts_like_quic`, `_get_client_hello` -/
 
 def be32 (a b c d : UInt8) : Nat := a.toNat * 16777216 + b.toNat * 65536 + c.toNat * 256 + d.toNat
@@ -173,7 +210,6 @@ def clientHello {Pat : Type} (E : Env Pat) (tcp : Bool) (port : Option Nat) (dc 
 
 abbrev Addr := Bytes × Nat
 
-def colon : UInt8 := 0x3a
 /-- decimal digits of `n` (what `str(port)` gives) -/
 def decimal (n : Nat) : Bytes := (Nat.toDigits 10 n).map (fun ch => UInt8.ofNat ch.toNat)
 /-- `f"{host}:{port}"` -/
@@ -459,22 +495,25 @@ def noteEv (s : Sess) : Ev → Sess
   | .closeS => { s with server := if s.tcp then { s.server with canRead := false } else ⟨false, false⟩ }
   | _ => s
 
+/-- `NextLayer._ask`: the next_layer hook with everything buffered so far; on a decision the child is started and the
+    buffered events are replayed -/
+def askNL {Pat : Type} (E : Env Pat) (c : NCfg Pat) (s : Sess) : Sess :=
+  match nextLayer E c s.dc s.ds with
+  | .needMore => s
+  | .ok st =>
+    match st with
+    | [LK.tcp ig] => startRelay { s with stack := st, flow := !ig } s.queue
+    | [LK.udp ig] => startRelay { s with stack := st, flow := !ig } s.queue
+    | _ => { s with phase := .intercepted, stack := st }
+
 /-- one event delivered to the NextLayer (and whatever it has become) -/
 def step {Pat : Type} (E : Env Pat) (c : NCfg Pat) (s0 : Sess) (e : Ev) : Sess :=
   let s := noteEv s0 e
   match s.phase with
   | .undecided =>
-    let ask (s : Sess) : Sess :=
-      match nextLayer E c s.dc s.ds with
-      | .needMore => s
-      | .ok st =>
-        match st with
-        | [LK.tcp ig] => startRelay { s with stack := st, flow := !ig } s.queue
-        | [LK.udp ig] => startRelay { s with stack := st, flow := !ig } s.queue
-        | _ => { s with phase := .intercepted, stack := st }
     match e with
-    | .dataC d => ask { s with queue := s.queue ++ [e], dc := s.dc ++ d }
-    | .dataS d => ask { s with queue := s.queue ++ [e], ds := s.ds ++ d }
+    | .dataC d => askNL E c { s with queue := s.queue ++ [e], dc := s.dc ++ d }
+    | .dataS d => askNL E c { s with queue := s.queue ++ [e], ds := s.ds ++ d }
     | .closeC => { (s.emit [.close false false]) with phase := .aborted, client := ⟨false, false⟩ }
     | .closeS => { s with queue := s.queue ++ [e] }
     | _ => s
